@@ -301,13 +301,13 @@ pub fn child(seed: u64) -> i32 {
     }
     let double = LogRecorder::new(7, &log);
     let drops = double.drops.clone();
-    match RecoverableRecorder::new(double).install() {
+    match RecoverableRecorder::new(super::c02::Reentrant(double)).install() {
         Err(e) => {
             if !pre_installed {
                 println!("CHILD-FAIL install-failed-without-existing-recorder install() failed although no global recorder existed");
                 return 1;
             }
-            let back = e.into_inner();
+            let back = e.into_inner().0;
             if back.id != 7 || drops.load(Ordering::SeqCst) != 0 {
                 println!("CHILD-FAIL failed-install-did-not-return-recorder got id {} drops {}", back.id, drops.load(Ordering::SeqCst));
                 return 1;
@@ -349,11 +349,30 @@ pub fn child(seed: u64) -> i32 {
                 println!("CHILD-FAIL emission-lost-while-handle-alive {} of {} registrations reached the recorder", regs, n * 50);
                 return 1;
             }
+            // while the handle is alive the wrapper passes everything on — also an emission the wrapped recorder makes
+            // itself, through the macros, from inside one of its own calls (the installed wrapper is re-entered on the
+            // same thread), and one made inside a with_recorder closure
+            {
+                let me = std::thread::current().id();
+                let names = |l: &crate::doubles::Log| -> Vec<String> { l.lock().unwrap().iter().filter(|e| e.thread == me).filter_map(|e| match &e.op { Op::Register { name, .. } | Op::Describe { name, .. } => Some(name.clone()), _ => None }).collect() };
+                let before = names(&log).len();
+                metrics::describe_counter!("nest_me", "d");
+                let got: Vec<String> = names(&log)[before..].to_vec();
+                if got != ["nested_from_inside_the_recorder", "nest_me"] {
+                    println!("CHILD-FAIL emission-lost-while-handle-alive the wrapped recorder emits a counter from inside describe_counter: the recorder received {:?}, expected the nested registration and then the description", got);
+                    return 1;
+                }
+                metrics::with_recorder(|_r| metrics::counter!("inside_with_recorder").increment(1));
+                if names(&log).last().map(|s| s.as_str()) != Some("inside_with_recorder") {
+                    println!("CHILD-FAIL emission-lost-while-handle-alive an emission made inside a with_recorder closure did not reach the wrapped recorder");
+                    return 1;
+                }
+            }
             let rec = if seed % 4 == 0 {
                 drop(handle);
                 None
             } else {
-                Some(handle.into_inner())
+                Some(handle.into_inner().0)
             };
             let before = log.lock().unwrap().len();
             metrics::counter!("after").increment(1);
